@@ -340,6 +340,39 @@ class Report:
         for b in res.get("bad", []):
             self.violation(b["clause"], b.get("sig", {}), replay_info(b))
 
+    # how often the premise of each rejecting clause of this property was met: the trace specs count activities
+    # (requests, calls, visits ...) under their own names; this maps every clause to the activity it is evaluated on
+    EVAL = {
+        "C01.overlap": ["C01.*"], "C01.permission": ["C01.*"], "C01.tid": ["C01.Holder", "C01.PassSupervision", "C01.Claim", "C01.None"], "C01.tsdr": ["C01.Reply"],
+        "C03.saps": ["C08.req"], "C03.wd": ["C03.prm"], "C04.event": ["C14.ev.DataExchanged"], "C14.configured": ["C04.out"], "C14.flags": ["C14.life"],
+        "C05.panic": ["#traces"], "C05.hang": ["#traces"], "C06.alive": ["C06.end"], "C06.single": ["C06.order"], "C11.immediate": ["C11.max3"],
+        "C12.one": ["C12.range"], "C12.cadence": ["C12.range"], "C12.reply.when": ["C12.reply.state"], "C15.done": ["C15.holder"], "C15.form": ["C15.reply"],
+        "C09.total": ["C09.exact"], "C16.deliver": ["C16.call.one", "C16.call.all"], "C16.keep": ["C16.call.one", "C16.call.all"], "C16.last": ["C16.call.all", "C16.dirty"],
+        "C16.total": ["C16.call.one", "C16.call.all"], "C17.header": ["C17.call"], "C17.fit": ["C17.call"], "C17.blocks": ["C17.call"], "C17.kinds": ["C17.nonempty"],
+        "C17.total": ["C17.call", "C17.scan"], "C18.events": ["C18.converge"], "C18.ident": ["C18.found"], "C18.spurious": ["C18.found"], "C18.total": ["#traces"],
+        "C19.faithful": ["C19.doc"], "C19.total": ["C19.doc", "C19.fuzz.ok", "C19.fuzz.err"], "C20.build": ["C20.new"], "C20.field": ["C20.set.ok"], "C20.frame": ["C20.set.ok"],
+        "C20.range": ["C20.set.ok", "C20.set.err"], "C20.error": ["C20.set.err"], "C20.total": ["C20.new", "C20.set.ok", "C20.set.err"],
+    }
+
+    def _clause_evaluations(self):
+        out = {}
+        for c, v in self.clauses.items():
+            if not c.startswith(self.prop + "."):
+                continue
+            if v > 0 or c not in self.EVAL:
+                out[c] = v
+                continue
+            tot = 0
+            for k in self.EVAL[c]:
+                if k == "#traces":
+                    tot += self.traces
+                elif k.endswith("*"):
+                    tot += sum(x for n, x in self.clauses.items() if n.startswith(k[:-1]))
+                else:
+                    tot += self.clauses.get(k, 0)
+            out[c] = tot
+        return out
+
     def violation(self, clause, sig, info):
         prop = clause.split(".")[0] if re.match(r"C\d\d", clause) else self.prop
         if prop != self.prop and not info.get("force"):
@@ -373,6 +406,7 @@ class Report:
         if self.conf["events"] and self.conf["explained"] < self.conf["events"]:
             log("MODEL-DRIFT property=%s explained %d of %d events" % (self.prop, self.conf["explained"], self.conf["events"]))
         cov = {
+            "clause_evaluations": self._clause_evaluations(),
             "states": max(1, self.states),
             "transitions": max(1, self.transitions),
             "traces_validated_against_impl": self.traces,
